@@ -8,6 +8,24 @@ Arguments N.pow : simpl never. Arguments N.ltb : simpl never. Arguments N.div : 
 Arguments N.modulo : simpl never.
 
 (* ---------- base-4 codes ---------- *)
+(* the suffix-walking definition of spec_kmers is the window-by-position formulation *)
+Lemma tl_skipn {A} a : forall s : list A, tl (skipn a s) = skipn (S a) s.
+Proof.
+  induction a as [|a IH]; intros s; [destruct s; reflexivity|].
+  destruct s as [|x t]; [reflexivity|]. cbn [skipn]. rewrite IH. destruct t; reflexivity.
+Qed.
+
+Lemma windows_go_flat nt4 k n : forall s a,
+  flat_map (fun p => emit nt4 (window s p k)) (seq a n) = windows_go nt4 k n (skipn a s).
+Proof.
+  induction n as [|n IH]; intros s a; [reflexivity|]. cbn [windows_go seq flat_map].
+  unfold window at 1. f_equal. rewrite IH, tl_skipn. reflexivity.
+Qed.
+
+Lemma spec_kmers_windows nt4 k s :
+  spec_kmers nt4 k s = flat_map (fun p => emit nt4 (window s p k)) (seq 0 (length s + 1 - k)).
+Proof. unfold spec_kmers. rewrite (windows_go_flat nt4 k (length s + 1 - k) s 0). reflexivity. Qed.
+
 Definition dig (l : list N) := Forall (fun d => d < 4) l.
 
 Lemma code_snoc l c : code (l ++ [c]) = 4 * code l + c.
@@ -314,7 +332,7 @@ Qed.
 Theorem kg_run_spec s : kg_run nt4 k s = spec_kmers nt4 k s.
 Proof.
   unfold kg_run. rewrite (kg_go_spec s [] _ inv_init), spec_go_windows.
-  unfold spec_kmers. cbn [length rev app]. f_equal. f_equal; lia.
+  rewrite spec_kmers_windows. cbn [length rev app]. f_equal. f_equal; lia.
 Qed.
 
 End Main.
@@ -341,7 +359,7 @@ Qed.
 Lemma spec_kmers_ext (f g : N -> N) (P : N -> Prop) k s :
   Forall P s -> (forall b, P b -> f b = g b) -> spec_kmers f k s = spec_kmers g k s.
 Proof.
-  intros Hs Hfg. unfold spec_kmers. apply flat_map_ext. intros p. apply emit_ext.
+  intros Hs Hfg. rewrite !spec_kmers_windows. apply flat_map_ext. intros p. apply emit_ext.
   intros b Hb. apply Hfg. rewrite Forall_forall in Hs. apply Hs.
   unfold window in Hb. apply In_firstn, In_skipn in Hb. exact Hb.
 Qed.
